@@ -246,6 +246,25 @@ def run(env):
         env.require_complete(res, "dense")
         env.pmap(monitor, res.sessions, workload="export")
         env.extra_cov["dense_lengths"] = "every L in 0..=16400 and 65500..=65600 for one suite per KDF"
+        # an exporter context of 2^32+5 bytes
+        from lib import giant
+
+        def judge(env, sess, op, big):
+            r = op.ret
+            if "es" not in r:
+                env.inconclusive.append("giant exporter context: no exporter-secret hook")
+                return
+            kem, kdf, aead = sess.ids
+            suite_id = b"HPKE" + kem.to_bytes(2, "big") + kdf.to_bytes(2, "big") + aead.to_bytes(2, "big")
+            want = cl.outenc(hkdf.labeled_expand(kdf, cl.unhex(r["es"]), suite_id, b"sec", bytes(big), 32))
+            for side in ("s_exp", "r_exp"):
+                if r.get(side) != want:
+                    env.violation("C11:giant_exporter_context:%s" % side, "export under an exporter context of 2^32+5 bytes gives %s, LabeledExpand of the context's exporter secret gives %s" % (
+                        r.get(side, "")[:40], want[:40]), case_text=sess.case_text(op.id), workload="giant-strings")
+            if r.get("p_exp") == r.get("s_exp"):
+                env.violation("C11:giant_exporter_context:ignored_byte", "changing byte %s of a 2^32+5-byte exporter context does not change the exported value" % op.args["flip"],
+                              case_text=sess.case_text(op.id), workload="giant-strings")
+        giant.run(env, "C11", ["exctx"], [(0x0020, 1, 1), (0x0010, 3, 0xFFFF)], judge)
     cells = {(d[0], d[1]) for d in env.distinct if isinstance(d[0], tuple)}
     env.extra_cov["suite_mode_cells"] = len(cells)
     if mr.counts["no_hook_value_unchecked"]:
